@@ -192,6 +192,9 @@ func visitInstr(fr *frame, instr ssa.Instruction) continuation {
 		panic(targetPanic{v: fr.get(instr.X)})
 
 	case *ssa.Send:
+		if E.traceCalls {
+			E.traceLog = append(E.traceLog, traceEvent{fn: "op:plain-chan-send in " + fr.fn.String()})
+		}
 		ch, _ := fr.get(instr.Chan).(*Chan)
 		E.chanSend(fr.g, ch, fr.get(instr.X))
 
